@@ -31,9 +31,9 @@ CLAIMED = {
         level='proof',
         text='Conservation of the accounted total proved as a structural theorem over all MIR bodies: the counter is mutated only by '
              'allocate/deallocate; allocate is called only by Managed*::new and deallocate only by their Drop impls with the recorded size; '
-             'Managed* literals occur only in new with size = allocate\'s result; every path of allocate is balanced (Ok: +size once and that '
+             'Managed* literals occur only in new with size = allocate\'s result; every outcome of allocate is balanced (Ok: +size once and that '
              'size is returned, Err: net zero); no leak/duplication primitive outside the audited sort utilities; values are immutable after '
-             'construction so no Rc cycle can form. Also decided: the limit comparison shape, that the total compared with the limit already includes the new bytes (the comparison is dominated by the addition), and who reads size_limit (monotonicity in L), and '
+             'construction so no Rc cycle can form. Balance and enforcement of allocate are decided as an outcome table by finite abstract evaluation of its MIR (the counter, the new size and the limit are touched only through +, - and comparisons, so five orderings represent every run; crate helpers are evaluated too): below / at the limit -> Ok(size) and counter + size, above -> Err and counter unchanged, no limit -> Ok(0). Also decided: who reads size_limit (monotonicity in L), that the static part of a native value is the size of the boxed object (not of a pointer to it), that no size model reads a reference count (one known finding: XStack::dyn_size stops at shared nodes, so stacks built by repeated push are under-accounted), and '
              'that the size model reads every runtime-sized payload field, and that the byte counts derived from a big integer are in bytes (unit analysis over bits / 64-bit digits / bytes). NOT decided: that dyn_size byte counts are adequate numbers, nor peak '
              'accounting of transient native buffers.',
         note='Trusted: rustc MIR + drop elaboration (each Managed* value dropped exactly once unless leaked by a listed primitive); '
@@ -97,7 +97,7 @@ CLAIMED = {
         text='Effect-freedom decided as a capability argument on the resolved call graph: none of the ~1280 bodies reachable from feed_file '
              '(pest parser, compilation scope, type relations, and the 60 compile-time callbacks of dynamic functions) calls the evaluator, a '
              'native or a dyn-eval callback, nor has a local of runtime/scope type — the only road to the injected writer, clock and rng. '
-             'The auto type `$` stays a whole turbofish slot: every recursive call of get_complete_type passes the constant false for the auto permission. Totality is decided partially: every rule-dispatching match covers all alternatives of the grammar choice it dispatches on '
+             'Errors are rendered against the very text that was parsed (same origin of both operands in feed_file), so their byte offsets index it. The auto type `$` stays a whole turbofish slot: every recursive call of get_complete_type (helpers of the file included) passes the constant false for the auto permission. Totality is decided partially: every rule-dispatching match covers all alternatives of the grammar choice it dispatches on '
              '(computed from the pest rule tree), unwrap chains on rule children stay within the guaranteed children, and every explicit '
              'panic!/unreachable!/unimplemented! of the compile phase is a covered dispatch default or listed with a reason; text-to-number '
              'conversions are never unwrapped; every position-indexed access of the compile phase (and every slice of source text with constant bounds) is dominated by a length test of the same collection or listed with a reason; '
@@ -127,12 +127,12 @@ CLAIMED = {
     'C04': dict(
         level='other',
         text='Structural necessary conditions of the static checker decided for every site (resolved MIR; the sibling case tables on the syntax tree): calls through function-typed '
-             'values are arity- and argument-checked for both callee kinds; both declared-type checks, evaluated abstractly for the three possible results of bind_in_assignment (none / empty binding / binding of a generic), reject / accept / reject; every zip of '
+             'values are arity- and argument-checked for both callee kinds; the declared-type checks (let, function output, parameter default), evaluated abstractly for the three possible results of bind_in_assignment (none / empty binding / binding of a generic), reject / accept / reject; every zip of '
              'two runtime-length lists in the type relations and call/construct typing is preceded by a length test on the same two lists (or '
              'listed with a confirmed reason) and its two sides iterate in the same direction; the hand-written type equality reads every '
              'typing-relevant field (incl. the return type of function types, and, for compound types, the declaration itself, not only its name); matching a parameter type that is a generic variable always records a binding (abstract evaluation; one known finding: the caller\'s generic of the same name); the case tables of bind_in_assignment / common_type / eq agree '
              'with the confirmed table; an already-bound generic parameter is re-bound only to the success payload of common_type(existing, new) '
-             '(MIR: every insert into bound_generics on the found side of a lookup of the same map). These rule out the accept-too-much failures (truncated comparison, ignored component, swapped '
+             '(MIR: every insert into bound_generics on the found side of a lookup of the same map); every expression the parser compiles has its type taken in the body that compiled it (so it can be compared with a declared type); the arity test in front of a zip over a function type\'s parameters is computed from its arg_len_range() (optional parameters), not only from the list length. These rule out the accept-too-much failures (truncated comparison, ignored component, swapped '
              'component). NOT decided: completeness (every assignable program accepted) and least-common-type optimality.',
         note='Trusted: syn parse; the reasons in ZIP_OK / PAIR_TABLE_REASONS (rules/c04.py) were confirmed by reading.',
         technique='static analysis on resolved MIR: binding-consumer and arity dominance, zip-origin analysis, abstract decision tables, ADT field coverage of the hand-written equality, value-origin rule for generic re-binding; sibling case-table agreement on the syntax tree',
@@ -160,7 +160,7 @@ CLAIMED = {
              'subtraction in builtins (the MIR operator, and the same arithmetic written on references, which is a call of the core::ops impl) guarded by a dominating comparison of the same operands (in the body, or at every call site of a private helper), computed on operands widened from a narrower type, or listed with a reason (and, where the reason is '
              'a match arm, revalidated structurally); list-shaped owning links have an iterative Drop; machine arithmetic on the small integer form that can overflow ((i64::MIN,-1), '
              '-i64::MIN; operators and the division-family methods) is excluded by an earlier match arm; get_func_with_type, evaluated abstractly, accepts a '
-             'callback only when its return type equals the expected one (natives downcast callback results by that type). NOT decided: soundness of the type rules '
+             'callback only when its return type equals the expected one (natives downcast callback results by that type); every with_capacity in the builtins is sized by the length of a collection already in memory or is dominated (in the body or at every call site) by a can_allocate computed from the same program-supplied number -- an unannounced request aborts the process. NOT decided: soundness of the type rules '
              'for all programs, absence of all panics (index/library panics, multiplication overflow).',
         note='Trusted: rustc MIR, syn; the reasons in EVAL_PANICS / SUB_OK (rules/c01.py). Three known findings (combinatorics on usize) in known_findings.json.',
         technique='static analysis: registration-vs-closure table agreement on the syntax tree; dominating-guard recognition on MIR asserts; panic inventory; ADT shape audit',
@@ -198,7 +198,7 @@ CLAIMED = {
              'argument-derived start tests it against the length first, and, because that test admits start == len, FencedString looks a caller-supplied position up in the code-point table only by length-tolerant accesses (get / range slice / index under a length test); inside FencedString an entry of the char-start table (a byte offset) is added to / subtracted from byte quantities or constants only, never a character index or count (unit origins through closures and captured variables); a unit analysis on the MIR (byte offsets vs code-point counts, origins walked backwards through statements, calls and closures) '
              'shows that no byte offset reaches a code-point sink (substring/substr indices, padding widths, integers returned by the str and regex '
              'natives) and no program-supplied index reaches a byte API (&str slicing, regex Input ranges) without conversion; the escape table equals the book\'s list with validated \\u{..} scalars; raw strings '
-             'bypass unescaping while quoted and f-string text parts go through it; escape sequences are decoded in one pass (the escape pattern is scanned over literal text only, never over already decoded text). NOT decided: agreement of split/replace/strip/... (xray '
+             'bypass unescaping while quoted and f-string text parts go through it; escape sequences are decoded in one pass (the escape pattern is scanned over literal text only, never over already decoded text); every string-body rule of the grammar that treats backslashes consumes backslash + its own delimiter as a unit (the documented \\" and \\\' work inside literals of the same quote); the keep-the-original fast path of to_lowercase / to_uppercase is taken only on a universal statement of the target-case predicate (titlecase letters are neither upper nor lower). NOT decided: agreement of split/replace/strip/... (xray '
              'stdlib text) with code-point semantics.',
         note='Trusted: syn parse; the book (lang/string_literals.md).',
         technique='static analysis: construction-site rules, guard-before-slice and table agreement with the book on the syntax tree; unit (byte vs code point) origin analysis on resolved MIR',
